@@ -184,6 +184,7 @@ def finish(m, prop, tier, seed, results, wall, verbose=False):
             solver="z3 %s (python API), per-query timeout %s ms" % (_z3v(), os.environ.get("VERIF_QUERY_TIMEOUT_MS", "20000" if tier == "quick" else "120000")),
             solver_time_s=round(sum(res["solver_time"] for res in results), 3),
             queries_confirmed_by_second_solver_cvc5=sum(res.get("cross_checked", 0) for res in results),
+            concrete_boundary_probes_on_real_code=sum(res.get("probes", 0) for res in results),
             exhaustive_over=getattr(m, "EXHAUSTIVE", []),
             outside_claim=getattr(m, "OUTSIDE", []),
             explanation="states = feasible symbolic paths of the real code explored; transitions = SMT queries discharged; "
